@@ -50,6 +50,8 @@ package sherpa
 //@   modifies *
 //@   loop 1 invariant !ghost(w).started && rtCount == old(rtCount) + 1 && recSuccess == old(recSuccess) && recFailure == old(recFailure)
 //@   loop 2 invariant !ghost(w).started && rtCount == old(rtCount) + 1 && recSuccess == old(recSuccess) && recFailure == old(recFailure)
+//@   ensures !ghost(w).started ==> ghost(w).hdr == old(ghost(w).hdr)
+//@   ensures !ghost(w).started ==> len(ghost(w).hdr["Content-Type"]) == old(len(ghost(w).hdr["Content-Type"]))
 //@   ensures res != nil && (connErr(res) || circuitOpen(res)) ==> !ghost(w).started
 //@   replay proxy_success_on_error_status@internal/adapter/proxy
 //@   at call RecordSuccess 1 assert resp.StatusCode < 400
@@ -126,6 +128,17 @@ package sherpa
 
 // ---- C19, engine scope: per request, the engine counts one request and one success/failure record per ATTEMPT.
 // Conservation total == successes + failures therefore needs exactly one attempt per request.
+// the per-endpoint attempt handed to the shared retry handler: it is proxyToSingleEndpoint, so it keeps the
+// ProxyFunc contract the retry loop relies on (requires about the captured s and rlog hold where the literal is made)
+//@ func (s *Service) ProxyRequestToEndpointsWithRetry$1
+//@   property C02 C05 C19
+//@   requires s != nil && s.configuration != nil && w != nil && rlog != nil && r != nil && r.URL != nil && endpoint != nil && endpoint.URL != nil && stats != nil
+//@   requires !ghost(w).started && ghost(w).hdr != nil
+//@   modifies *
+//@   ensures recSuccess + recFailure == old(recSuccess) + old(recFailure) + 1
+//@   ensures res != nil && (connErr(res) || circuitOpen(res)) ==> !ghost(w).started
+//@   ensures !ghost(w).started ==> ghost(w).hdr == old(ghost(w).hdr) && len(ghost(w).hdr["Content-Type"]) == old(len(ghost(w).hdr["Content-Type"]))
+
 //@ func (s *Service) ProxyRequestToEndpointsWithRetry
 //@   property C19
 //@   replay proxy_engine_stats_conservation@internal/adapter/proxy
@@ -133,6 +146,7 @@ package sherpa
 //@   modifies *
 //@   ensures reqCount == old(reqCount) + 1
 //@   ensures recSuccess + recFailure - (old(recSuccess) + old(recFailure)) == reqCount - old(reqCount)
+//@   ensures !ghost(w).started ==> ghost(w).hdr == old(ghost(w).hdr) && len(ghost(w).hdr["Content-Type"]) == old(len(ghost(w).hdr["Content-Type"]))
 
 //@ func (c *Configuration) GetProxyProfile
 //@   property C18
